@@ -25,9 +25,11 @@ import (
 	"math/big"
 	"net/http"
 	"os"
+	"runtime"
 	"sort"
 	"strconv"
 	"strings"
+	"sync"
 	"time"
 	"unicode/utf8"
 
@@ -617,15 +619,22 @@ func streamFilter(w *casefile.Writer, r *rng.R, n int) {
 }
 
 // documents with duplicate keys (possibly spelled differently): separate stream
-func streamDup(w *casefile.Writer, r *rng.R, n int) {
+func streamDup(w *casefile.Writer, r *rng.R, n int, prefix string, wide bool) {
 	for made := 0; made < n; {
 		pool := keyPool(r)
+		if wide {
+			for len(pool) < 30 {
+				pool = keyPool(r)
+			}
+		}
 		nd := r.Range(1, 4)
 		docs := make([][]byte, nd)
 		var dupKeys []string
 		for i := range docs {
 			size := r.Range(1, 8)
-			if r.Chance(1, 6) {
+			if wide && r.Chance(3, 4) {
+				size = r.Range(18, 30) // wide objects: above insane-json's default map threshold
+			} else if r.Chance(1, 6) {
 				size = r.Range(14, 20)
 			} else if r.Chance(1, 6) {
 				size = r.Range(33, 45) // > 32 fields
@@ -649,7 +658,7 @@ func streamDup(w *casefile.Writer, r *rng.R, n int) {
 				fields = append(fields, fields[len(fields)-1]) // ... sometimes twice
 			}
 		}
-		filterBatch(w, docs, fields, r.Bool(), "dupkeys-", kind)
+		filterBatch(w, docs, fields, r.Bool(), prefix, kind)
 		made += nd
 	}
 }
@@ -1277,6 +1286,388 @@ func streamReq(w *casefile.Writer, r *rng.R, n int) {
 	}
 }
 
+// ---------------------------------------------------------------- streams: pool discipline and concurrency
+
+// bigDoc renders an object of roughly kb KiB: a few dozen fields with long string values
+func bigDoc(r *rng.R, kb int, fixed map[string]string) []byte {
+	keys := []string{"small"}
+	vals := map[string]string{"small": `"s"`}
+	for k, v := range fixed {
+		keys = append(keys, k)
+		vals[k] = v
+	}
+	sort.Strings(keys[1:])
+	total := 0
+	for i := 0; total < kb*1024; i++ {
+		k := fmt.Sprintf("big%d", i)
+		var sb strings.Builder
+		for n := r.Range(1500, 5000); sb.Len() < n; {
+			sb.WriteString(rng.Pick(r, strPool))
+			sb.WriteString(" lorem ipsum dolor ")
+		}
+		v := jsonStr(r, sb.String())
+		if r.Chance(1, 6) {
+			v = "[" + v + ",1e3,{\"k\":" + v + "}]"
+		}
+		keys = append(keys, k)
+		vals[k] = v
+		total += len(v)
+	}
+	rng.Shuffle(r, keys)
+	return renderDoc(r, keys, genOpts{noNewline: true}, vals)
+}
+
+// emitOne writes one CFilter case for (doc, filter, output)
+func emitOne(w *casefile.Writer, class string, doc []byte, fields []string, allow bool, out []byte, extra map[string]any) {
+	orig, ok := parseTop(doc)
+	if !ok {
+		panic("generator produced an invalid document")
+	}
+	m := newIDs()
+	dterm := m.doc(orig)
+	fterm := m.keyList(fields)
+	in := map[string]any{"doc": string(doc), "fields": fields, "allow_list": allow}
+	for k, v := range extra {
+		in[k] = v
+	}
+	w.Add(fmt.Sprintf("CFilter %s %s %s %s", dterm, fterm, casefile.Bool(allow), m.impl(out)), class, len(orig) >= 3, in, string(out))
+}
+
+// streamPool: the state of a filter is private to the request that acquired it. Deterministic:
+// F1 processes a big document and is released; then several filters are acquired WITHOUT releasing in
+// between (as concurrent Fetch handlers do): they must be distinct objects with distinct decoders, and
+// each returns the projection of its own document.
+func streamPool(w *casefile.Writer, seed uint64, rounds int) {
+	r := rng.New(seed ^ 0xC20A)
+	for round := 0; round < rounds; round++ {
+		big := bigDoc(r, r.Range(70, 200), nil)
+		in := map[string]any{"pool_seed_round": round, "big_doc_bytes": len(big)}
+		pool := keyPool(r)
+		n := r.Range(3, 5)
+		held := make([]*storeapi.VerifC20Filter, n)
+		fields := make([][]string, n)
+		allow := make([]bool, n)
+		docs := make([][]byte, n)
+		for i := range held {
+			size := r.Range(3, 9)
+			if size > len(pool) {
+				size = len(pool)
+			}
+			docs[i] = renderDoc(r, distinctKeys(r, pool, size), genOpts{}, nil)
+			fields[i], _ = genFilter(r, unionKeys(docs[i:i+1]), pool)
+			if len(fields[i]) == 0 {
+				fields[i] = []string{pickKey(r)}
+			}
+			allow[i] = r.Bool()
+		}
+		// everything is prepared: from here to the identity check nothing else allocates much, so that a
+		// garbage collection (which empties sync.Pools) is unlikely to hide a leaked decoder
+		f1 := storeapi.VerifC20Acquire([]string{"small"}, false)
+		out := f1.Filter(big)
+		f1.Release()
+		for i := range held {
+			held[i] = storeapi.VerifC20Acquire(fields[i], allow[i])
+		}
+		for i := range held {
+			for j := i + 1; j < n; j++ {
+				sf, sd := storeapi.VerifC20FilterIdentity(held[i], held[j])
+				if sf || sd {
+					in["filters"] = fields
+					w.Violate("pool:shared-state", fmt.Sprintf("two filters acquired at the same time share state (same filter object: %v, same JSON decoder: %v) "+
+						"after a filter that processed a %d-byte document was released", sf, sd, len(big)), in)
+				}
+			}
+		}
+		emitOne(w, "pool-big", big, []string{"small"}, false, out, map[string]any{"pool": seed})
+		// use them in an interleaved order
+		order := make([]int, 0, 2*n)
+		for i := 0; i < n; i++ {
+			order = append(order, i, i)
+		}
+		rng.Shuffle(r, order)
+		for _, i := range order {
+			emitOne(w, "pool-held", docs[i], fields[i], allow[i], held[i].Filter(docs[i]), map[string]any{"pool": seed})
+		}
+		for _, f := range held {
+			f.Release()
+		}
+		w.Count("pool-rounds")
+	}
+}
+
+type concOut struct {
+	g, pos int
+	via    string
+	out    string
+}
+
+// streamConcurrent: after a big document went through a filter, several requests are in flight at once.
+// Unit level (goroutines holding acquired filters, yielding between documents like doFetch's stream.Send)
+// and end to end (concurrent proxy fetches / searches / store fetches over disjoint ID sets on a 2-shard
+// cluster). Every returned document must be the projection of ITS stored object by ITS request's filter.
+// Outputs are de-duplicated per (request, document, output): on a correct tree the case set is fixed.
+func streamConcurrent(w *casefile.Writer, seed uint64, iters int) {
+	r := rng.New(seed ^ 0xC20C)
+	extra := map[string]any{"concurrent_seed": seed, "iters": iters}
+	// ---- unit level
+	const G = 6
+	pool := keyPool(r)
+	type job struct {
+		docs   [][]byte
+		fields []string
+		allow  bool
+	}
+	jobs := make([]job, G)
+	for g := range jobs {
+		nd := r.Range(3, 6)
+		for i := 0; i < nd; i++ {
+			size := r.Range(4, 20)
+			if size > len(pool) {
+				size = len(pool)
+			}
+			jobs[g].docs = append(jobs[g].docs, renderDoc(r, distinctKeys(r, pool, size), genOpts{}, nil))
+		}
+		if g < 2 {
+			jobs[g].docs = append(jobs[g].docs, bigDoc(r, r.Range(70, 120), nil))
+			jobs[g].fields, jobs[g].allow = []string{"small", pickKey(r)}, false
+		} else {
+			jobs[g].fields, _ = genFilter(r, unionKeys(jobs[g].docs), pool)
+			if len(jobs[g].fields) == 0 {
+				jobs[g].fields = []string{pickKey(r)}
+			}
+			jobs[g].allow = r.Bool()
+		}
+	}
+	var mu sync.Mutex
+	seen := map[concOut]bool{}
+	var panics []string
+	var wg sync.WaitGroup
+	for g := 0; g < G; g++ {
+		wg.Add(1)
+		go func(g int) {
+			defer wg.Done()
+			defer func() {
+				if p := recover(); p != nil {
+					mu.Lock()
+					panics = append(panics, fmt.Sprint(p))
+					mu.Unlock()
+				}
+			}()
+			j := jobs[g]
+			for it := 0; it < iters; it++ {
+				f := storeapi.VerifC20Acquire(j.fields, j.allow)
+				for pos, d := range j.docs {
+					if len(d) > 32<<10 && it%8 != 0 {
+						continue // the big document only now and then
+					}
+					out := f.Filter(d)
+					mu.Lock()
+					seen[concOut{g, pos, "unit", string(out)}] = true
+					mu.Unlock()
+					runtime.Gosched() // doFetch sends the block here
+				}
+				f.Release()
+			}
+		}(g)
+	}
+	wg.Wait()
+	for _, p := range panics {
+		w.Violate("panic:concurrent-filter", "docFieldsFilter panics under concurrent requests: "+p, extra)
+	}
+	emitConc(w, seen, "concurrent-filter", extra, func(o concOut) ([]byte, []string, bool) {
+		return jobs[o.g].docs[o.pos], jobs[o.g].fields, jobs[o.g].allow
+	})
+
+	// ---- end to end
+	conf.UseSeqQLByDefault = true
+	c := startCluster(2)
+	defer c.stop()
+	base := time.Now().UTC().Add(-time.Hour).Truncate(time.Second)
+	nd := 36
+	docs := make([][]byte, nd)
+	for i := range docs {
+		tv := map[string]string{"time": `"` + base.Add(time.Duration(i)*time.Second).Format(time.RFC3339) + `"`}
+		if i%12 == 5 {
+			docs[i] = bigDoc(r, r.Range(70, 200), tv)
+			continue
+		}
+		size := r.Range(2, 12)
+		if size > len(pool) {
+			size = len(pool)
+		}
+		keys := append(distinctKeys(r, pool, size), "time")
+		rng.Shuffle(r, keys)
+		docs[i] = renderDoc(r, keys, genOpts{noNewline: true}, tv)
+	}
+	if err := c.bulkSpread(r, docs); err != nil {
+		w.Violate("page:bulk-error", "bulk of valid JSON objects failed: "+err.Error(), extra)
+		return
+	}
+	c.env.WaitIdle()
+	w.Count(fmt.Sprintf("concurrent-cluster:shards=%d,with-docs=%d", c.shards, c.shardsWithDocs()))
+	qpr, plain, _, err := c.env.Search("*", nd+5)
+	if err != nil || len(plain) != nd {
+		w.Violate("page:error", fmt.Sprintf("unfiltered search: %v, %d of %d documents", err, len(plain), nd), extra)
+		return
+	}
+	// the big documents once through every path with a filter that keeps them big (sequential; page cases)
+	for _, via := range []string{"page-search", "page-documents", "page-store-fetch"} {
+		fields, allow := []string{"small"}, false
+		in := map[string]any{"kind": "big", "size": nd, "offset": 0, "order": int(seq.DocsOrderDesc), "stored": batchStrings(docs),
+			"sealed": false, "shards": c.shards, "via": via, "query": "* | fields except small"}
+		a, b, err := c.observe(via, "* | fields except small", fields, allow, nd, 0, seq.DocsOrderDesc)
+		if err != nil {
+			w.Violate("page:error", err.Error(), in)
+			continue
+		}
+		pageCase(w, via, a, b, fields, allow, in)
+	}
+	// G requests over disjoint sets of documents (g gets the positions congruent g mod G), at once
+	type ejob struct {
+		pos    []int
+		ids    []seq.ID
+		strs   []string
+		fields []string
+		allow  bool
+		q      string
+	}
+	ej := make([]ejob, G)
+	present := unionKeys(docs)
+	for g := range ej {
+		for p := g; p < nd; p += G {
+			ej[g].pos = append(ej[g].pos, p)
+			ej[g].ids = append(ej[g].ids, qpr.IDs[p].ID)
+			ej[g].strs = append(ej[g].strs, qpr.IDs[p].ID.String())
+		}
+		if g%3 == 0 {
+			ej[g].fields, ej[g].allow = []string{"small", "time"}, false // keeps the big documents big
+		} else {
+			ej[g].fields, _ = genFilter(r, present, pool)
+			if len(ej[g].fields) == 0 {
+				ej[g].fields = []string{"time"}
+			}
+			ej[g].allow = r.Bool()
+		}
+		ej[g].q = "*" + pipeText(r, ej[g].fields, ej[g].allow)
+	}
+	eseen := map[concOut]bool{}
+	var errs []string
+	eiters := iters / 2
+	for g := 0; g < G; g++ {
+		wg.Add(1)
+		go func(g int) {
+			defer wg.Done()
+			j := ej[g]
+			note := func(via string, pos int, out []byte) {
+				mu.Lock()
+				eseen[concOut{g, pos, via, string(out)}] = true
+				mu.Unlock()
+			}
+			fail := func(e string) {
+				mu.Lock()
+				errs = append(errs, e)
+				mu.Unlock()
+			}
+			for it := 0; it < eiters; it++ {
+				switch it % 3 {
+				case 0: // proxy fetch of this request's IDs with its filter
+					ctx, cancel := context.WithCancel(context.Background())
+					st, err := c.env.Ingestor().SearchIngestor.Documents(ctx, search.FetchRequest{IDs: j.ids,
+						FieldsFilter: search.FetchFieldsFilter{Fields: append([]string{}, j.fields...), AllowList: j.allow}})
+					if err != nil {
+						cancel()
+						fail("proxy fetch: " + err.Error())
+						continue
+					}
+					got := search.ReadAll(st)
+					cancel()
+					for i, p := range j.pos {
+						if i < len(got) {
+							note("documents", p, got[i])
+						} else {
+							note("documents", p, nil)
+						}
+					}
+				case 1: // Fetch on every store
+					have := make([][]byte, len(j.pos))
+					for _, reps := range c.env.HotStores {
+						st, err := storeapi.NewClient(reps[0]).Fetch(context.Background(), &pstoreapi.FetchRequest{Ids: j.strs,
+							FieldsFilter: &pstoreapi.FetchRequest_FieldsFilter{Fields: append([]string{}, j.fields...), AllowList: j.allow}})
+						if err != nil {
+							fail("store fetch: " + err.Error())
+							continue
+						}
+						for i := 0; ; i++ {
+							d, err := st.Recv()
+							if err != nil {
+								break
+							}
+							if blk := disk.DocBlock(d.Data); blk.Len() > 0 && i < len(have) {
+								have[i] = append([]byte{}, blk.Payload()...)
+							}
+						}
+					}
+					for i, p := range j.pos {
+						note("store-fetch", p, have[i])
+					}
+				default: // search with the pipe over a window of the result (windows overlap between requests: reads only)
+					size, offset := 6, (g*5)%(nd-6)
+					_, got, _, err := c.env.Search(j.q, size, setup.WithOffset(offset))
+					if err != nil {
+						fail("search: " + err.Error())
+						continue
+					}
+					for i := 0; i < size; i++ {
+						if i < len(got) {
+							note("search", offset+i, got[i])
+						} else {
+							note("search", offset+i, nil)
+						}
+					}
+				}
+			}
+		}(g)
+	}
+	wg.Wait()
+	sort.Strings(errs)
+	for i, e := range errs {
+		if i == 0 || errs[i-1] != e {
+			w.Violate("page:error", "concurrent "+e, extra)
+		}
+	}
+	emitConc(w, eseen, "concurrent-fetch", extra, func(o concOut) ([]byte, []string, bool) {
+		return plain[o.pos], ej[o.g].fields, ej[o.g].allow
+	})
+}
+
+func emitConc(w *casefile.Writer, seen map[concOut]bool, class string, extra map[string]any, of func(concOut) ([]byte, []string, bool)) {
+	all := make([]concOut, 0, len(seen))
+	for o := range seen {
+		all = append(all, o)
+	}
+	sort.Slice(all, func(a, b int) bool {
+		x, y := all[a], all[b]
+		if x.g != y.g {
+			return x.g < y.g
+		}
+		if x.via != y.via {
+			return x.via < y.via
+		}
+		if x.pos != y.pos {
+			return x.pos < y.pos
+		}
+		return x.out < y.out
+	})
+	for _, o := range all {
+		doc, fields, allow := of(o)
+		ex := map[string]any{"request": o.g, "via": o.via}
+		for k, v := range extra {
+			ex[k] = v
+		}
+		emitOne(w, class, doc, fields, allow, []byte(o.out), ex)
+	}
+}
+
 // ---------------------------------------------------------------- main / replay
 
 func main() {
@@ -1306,15 +1697,25 @@ func main() {
 		return
 	}
 	r := rng.New(*seed)
-	nFilter, nDup, nPipe, nReq, rounds, perRound, queries := 5000, 1200, 1500, 600, 2, 24, 40
+	nFilter, nDup, nPipe, nReq, rounds, perRound, queries, concIters := 5000, 1200, 1500, 600, 2, 24, 40, 200
 	if *tier == "thorough" {
-		nFilter, nDup, nPipe, nReq, rounds, perRound, queries = 120000, 12000, 20000, 8000, 8, 60, 120
+		nFilter, nDup, nPipe, nReq, rounds, perRound, queries, concIters = 120000, 12000, 20000, 8000, 8, 60, 120, 1500
 	}
+	// first, while the filter pool of this process is still empty: the pool discipline (deterministic)
+	streamPool(w, *seed, 4)
+	// then, while nothing else in the process decodes JSON: the duplicate-key stream once more under
+	// insane-json's LIBRARY-DEFAULT map threshold (16). The seq-db binary never runs with it (cmd/seq-db
+	// imports proxy/bulk in every mode, whose init() sets MaxInt32), but any other embedding of storeapi
+	// (its own unit tests, for one) does; the filter must not depend on that global.
+	insaneJSON.MapUseThreshold = 16
+	streamDup(w, rng.New(*seed^0xC20B), nDup/3, "mapthr16-dupkeys-", true)
+	insaneJSON.MapUseThreshold = math.MaxInt32
 	streamFilter(w, r.Fork(), nFilter)
-	streamDup(w, r.Fork(), nDup)
+	streamDup(w, r.Fork(), nDup, "dupkeys-", false)
 	streamPipe(w, r.Fork(), nPipe)
 	streamReq(w, r.Fork(), nReq)
 	streamPage(w, r.Fork(), rounds, perRound, queries)
+	streamConcurrent(w, *seed, concIters)
 	if err := w.Close(); err != nil {
 		panic(err)
 	}
@@ -1368,6 +1769,15 @@ func doReplay(w *casefile.Writer, path string) {
 		got := search.VerifC20TryParseFieldsFilter(q)
 		fmt.Printf("replay tryParseFieldsFilter(%q) = fields %q allow_list=%v\n", q, got.Fields, got.AllowList)
 		w.Evals(1)
+	case in["concurrent_seed"] != nil:
+		sd, _ := in["concurrent_seed"].(float64)
+		it, _ := in["iters"].(float64)
+		fmt.Printf("replay: re-running the concurrent requests of seed %d (%d iterations); outputs that differ from the projection are re-emitted as cases\n", uint64(sd), int(it))
+		streamConcurrent(w, uint64(sd), int(it))
+	case in["pool"] != nil:
+		fmt.Println("replay: re-running the pool discipline stream (needs a fresh process: this is one)")
+		sd, _ := in["pool"].(float64)
+		streamPool(w, uint64(sd), 4)
 	case in["req_fields"] != nil:
 		n, _ := in["sources"].(float64)
 		reqCase(w, rng.New(1), strList(in["req_fields"]), allow, int(n), "replay")
@@ -1377,6 +1787,10 @@ func doReplay(w *casefile.Writer, path string) {
 		prefix := ""
 		if strings.HasPrefix(class, "dupkeys-") {
 			prefix = "dupkeys-"
+		}
+		if strings.HasPrefix(class, "mapthr16-") {
+			prefix = "mapthr16-dupkeys-"
+			insaneJSON.MapUseThreshold = 16 // the configuration of that stream
 		}
 		g := runFilter(docs, fields, allow)
 		for i := range docs {
